@@ -50,6 +50,15 @@ def setup_job(name, patch):
         shutil.copytree(os.path.join(VERIF, "harness", ".cargo"), f"{d}/harness/.cargo")
     toml = open(os.path.join(VERIF, "harness", "Cargo.toml")).read().replace('path = "/repo"', f'path = "{d}/repo"')
     open(f"{d}/harness/Cargo.toml", "w").write(toml)
+    # start from /verif's own build output: the dependencies (nom, heapless, ...) need not be compiled again, cargo
+    # rebuilds the crate under test and the harness because their paths differ
+    for sub in ("std", "alloc", "noalloc", "std0"):
+        src = os.path.join(VERIF, "harness", "target", sub)
+        if os.path.isdir(src):
+            sh(f"mkdir -p {d}/harness/target && cp -a --reflink=auto {src} {d}/harness/target/{sub}")
+    src = os.path.join(VERIF, "work", "cli-target")
+    if os.path.isdir(src):
+        sh(f"mkdir -p {d}/work && cp -a --reflink=auto {src} {d}/work/cli-target")
     return d, True
 
 
